@@ -50,6 +50,14 @@ func (h *Hist) RandString(n int) string {
 func (h *Hist) CreateTable() *proto.Stmt {
 	h.tabSeq++
 	name := fmt.Sprintf("%s%d", h.Prefix, h.tabSeq)
+	if len(h.DB.Tables) > 0 && h.R.Chance(1, 4) {
+		// table names are case-sensitive: a twin that differs from an existing
+		// table only in letter case is a different table
+		twin := strings.ToUpper(h.DB.Tables[h.R.Intn(len(h.DB.Tables))].Name)
+		if h.DB.Table(twin) == nil {
+			name = twin
+		}
+	}
 	n := h.R.Range(2, h.MaxCols)
 	defs := []proto.ColDef{{Name: "k", Type: "int"}, {Name: "g", Type: "int"}}
 	for i := 2; i < n; i++ {
